@@ -27,10 +27,10 @@ theorem Post.abnormal {T : Stat} {lp : Bool × Bool} {brk cont : String} {st0 : 
     · rw [hj] at hj'; cases hj'
     · exact ⟨h0, n, env', M', h1, Or.inr h2⟩
   | ret v =>
-    obtain ⟨n, h2⟩ := h
+    obtain ⟨hrg, n, h2⟩ := h
     rcases h2 with ⟨env', M', val, r0, hj', _⟩ | h2
     · rw [hj] at hj'; cases hj'
-    · exact ⟨n, Or.inr h2⟩
+    · exact ⟨hrg, n, Or.inr h2⟩
 
 /-- the position after a statement -/
 theorem Pos.after {T : Stat} {c : SCtx} {nd nd' : Nat} {pre : List Item} (hp : Pos T c nd pre)
@@ -66,12 +66,12 @@ theorem Done.post_abnormal {T : Stat} {lp : Bool × Bool} {brk cont : String} {s
     obtain ⟨h0, n, env', M', st, h1, h2, h3⟩ := h
     exact ⟨h0, n, env', M', h1, Or.inr ⟨st, h2, h3⟩⟩
   | ret v =>
-    obtain ⟨n, st, r, h1, h2, h3⟩ := h
-    exact ⟨n, Or.inr ⟨st, r, h1, h2, h3⟩⟩
+    obtain ⟨hrg, n, st, r, h1, h2, h3⟩ := h
+    exact ⟨hrg, n, Or.inr ⟨st, r, h1, h2, h3⟩⟩
 
 /-- a statement ending in `return`/`break`/`continue` does not complete normally -/
-theorem endsJump_abnormal (cs : Bool) : ∀ (n : Nat) (a : Stmt) (s : Store) (o : CSem2.Outcome),
-    a.endsJump = true → exec cs n s a = some o → ∀ s', o ≠ .normal s' := by
+theorem endsJump_abnormal (cs : Bool) (P : List CSem2.Func) : ∀ (n : Nat) (a : Stmt) (s : Store) (o : CSem2.Outcome),
+    a.endsJump = true → exec cs P n s a = some o → ∀ s', o ≠ .normal s' := by
   intro n
   induction n with
   | zero => intro a s o _ h; simp only [exec] at h; cases h
@@ -83,7 +83,7 @@ theorem endsJump_abnormal (cs : Bool) : ∀ (n : Nat) (a : Stmt) (s : Store) (o 
       obtain ⟨v, _, h2⟩ := h; cases h2
     · rename_i x y
       simp only [exec] at h
-      cases hx : exec cs n s x with
+      cases hx : exec cs P n s x with
       | none => rw [hx] at h; cases h
       | some ox =>
         rw [hx] at h
@@ -138,8 +138,8 @@ theorem PosS.after {T : Stat} {c : SCtx} {nd nd' : Nat} {pre : List Item} (hp : 
     exact (h3 _ hm).2
 
 /-- how `exec` continues a sequence after the outcome of its first statement -/
-def seqRes (cs : Bool) (n : Nat) (b : Stmt) : CSem2.Outcome → Option CSem2.Outcome
-  | .normal s' => exec cs n s' b
+def seqRes (cs : Bool) (P : List CSem2.Func) (n : Nat) (b : Stmt) : CSem2.Outcome → Option CSem2.Outcome
+  | .normal s' => exec cs P n s' b
   | o => some o
 
 section
@@ -148,7 +148,7 @@ variable (T : Stat)
 /-- The second statement of a sequence, given what the first one achieved (`pa`). -/
 theorem seq_cont (n : Nat) (ih : SimStmt T n) (a b : Stmt) {out oa : CSem2.Outcome}
     {lp : Bool × Bool} {brk cont : String} {c : SCtx} {nd nd' : Nat} {pre post : List Item} {st0 : State}
-    (hfrb : frag b = true)
+    (hfrb : frag T.P b = true)
     (hwt : Stmt.wt T.vtys T.ret lp.1 lp.2 nd (.seq a b) = some nd') (hp : PosS T c nd pre)
     (hjs : c.jump = none ∨ a.startsLabel = true)
     (hext : Ext T (funcstmt T.S.cs brk cont (.seq a b) c).ctx)
@@ -157,7 +157,7 @@ theorem seq_cont (n : Nat) (ih : SimStmt T n) (a b : Stmt) {out oa : CSem2.Outco
     (pa : Post T lp brk cont st0 (pre ++ (funcstmt T.S.cs brk cont a c).items)
       (funcstmt T.S.cs brk cont a c).ctx oa)
     (habn : a.endsJump = true → ∀ s', oa ≠ .normal s')
-    (hres : seqRes T.S.cs n b oa = some out) :
+    (hres : seqRes T.S.cs T.P n b oa = some out) :
     Post T lp brk cont st0 (pre ++ (funcstmt T.S.cs brk cont (.seq a b) c).items)
       (funcstmt T.S.cs brk cont (.seq a b) c).ctx out := by
   simp only [Stmt.wt] at hwt
@@ -223,12 +223,12 @@ theorem seq_cont (n : Nat) (ih : SimStmt T n) (a b : Stmt) {out oa : CSem2.Outco
 theorem sim_seq (n : Nat) (ih : SimStmt T n) (a b : Stmt) {s : Store} {out : CSem2.Outcome}
     {lp : Bool × Bool} {brk cont : String} {c : SCtx} {nd nd' : Nat} {pre post : List Item} {env : Env}
     {M : Mem}
-    (hex : exec T.S.cs (n + 1) s (.seq a b) = some out) (hfr : frag (.seq a b) = true)
+    (hex : exec T.S.cs T.P (n + 1) s (.seq a b) = some out) (hfr : frag T.P (.seq a b) = true)
     (hwt : Stmt.wt T.vtys T.ret lp.1 lp.2 nd (.seq a b) = some nd') (hp : Pos T c nd pre)
     (hext : Ext T (funcstmt T.S.cs brk cont (.seq a b) c).ctx)
     (hits : T.S.its = pre ++ (funcstmt T.S.cs brk cont (.seq a b) c).items ++ post)
     (hlp : (lp.1 = true → CanJump T.S brk) ∧ (lp.2 = true → CanJump T.S cont))
-    (inv : SInv T.S.cs T.σ T.vtys s env M) :
+    (inv : SInv T.M0 T.S.cs T.σ T.vtys s env M) :
     Post T lp brk cont (T.at env M pre) (pre ++ (funcstmt T.S.cs brk cont (.seq a b) c).items)
       (funcstmt T.S.cs brk cont (.seq a b) c).ctx out := by
   simp only [frag, Bool.and_eq_true] at hfr
@@ -255,15 +255,15 @@ theorem sim_seq (n : Nat) (ih : SimStmt T n) (a b : Stmt) {s : Store} {out : CSe
         ((funcstmt T.S.cs brk cont b (funcstmt T.S.cs brk cont a c).ctx).items ++ post) := by
       rw [hits]; simp only [funcstmt, List.append_assoc]
     simp only [exec] at hex
-    cases hea : exec T.S.cs n s a with
+    cases hea : exec T.S.cs T.P n s a with
     | none => rw [hea] at hex; cases hex
     | some oa =>
       rw [hea] at hex
       have pa := ih a s oa lp brk cont c nd n1 pre _ env M hea hfr.1 hwa hp hexta hitsa hlp inv
-      have hres : seqRes T.S.cs n b oa = some out := by
+      have hres : seqRes T.S.cs T.P n b oa = some out := by
         cases oa <;> simpa [seqRes] using hex
       exact seq_cont T n ih a b hfr.2 hwt hp.toS (Or.inl hp.jump) hext hits hlp pa
-        (fun he => endsJump_abnormal T.S.cs n a s oa he hea) hres
+        (fun he => endsJump_abnormal T.S.cs T.P n a s oa he hea) hres
 
 end
 
